@@ -68,6 +68,12 @@ VQ_OP(copy_tuple) { auto A = t.crs(); std::vector<ptrdiff_t> p, c; std::vector<Q
     Crs C(std::tie(A->nrows, p, c, v)); return show_crs(C); }
 VQ_OP(copy_crs) { auto A = t.crs(); Crs C(*A); return show_crs(C); }
 VQ_OP(copy_assign) { auto A = t.crs(); auto B = t.crs(); *B = *A; return show_crs(*B); }
+// assignment into a non-owning view of B's arrays: the view gets a copy of A, B stays intact
+VQ_OP(copy_assign_view) { auto A = t.crs(); auto B = t.crs();
+    std::string r;
+    { Crs V; V.nrows = B->nrows; V.ncols = B->ncols; V.nnz = B->nnz; V.ptr = B->ptr; V.col = B->col; V.val = B->val;
+      V.own_data = false; V = *A; r = show_crs(V); }
+    return r + " " + show_crs(*B); }
 // converting constructor: crs<Q, long, long> from crs<double, int, int> (values exact dyadics)
 VQ_OP(copy_convert) {
     auto A = t.crsT<double>();
